@@ -67,8 +67,9 @@ Example c05_guard_example :
   let s := mkSch (mkSchema [mkType "t" [("a", mkAttr "a" 1 false); ("n", mkAttr "n" 3 true)] []]) [] in
   all_soft s /\ no_bytes_schema s.
 Proof.
-  cbn zeta. split; [reflexivity|]. intros n k a. unfold get_type. cbn.
-  destruct (String.eqb "t" n); cbn.
-  - intros [H|[H|[]]]; inversion H; subst; cbn; discriminate.
-  - intros [].
+  cbn zeta. split; [reflexivity|]. intros n. unfold no_bytes, get_type.
+  cbn [sch_schema types get_type_in tname].
+  destruct (String.eqb "t" n); cbn [tattrs empty_type]; intros k a H.
+  - destruct H as [H|[H|[]]]; inversion H; subst; cbn; discriminate.
+  - destruct H.
 Qed.
